@@ -191,7 +191,9 @@ LABELS = ['A1', 'A2', 'A3', 'A4', 'D1', 'D2', 'D3', 'O1', 'O2', 'K4', 'Y1', 'X1'
 def gen_omen(rng, alphabet=None, ngram=None, nlevels=None, max_len=None):
     """A random OMEN model. Levels per entry from small pools so that several levels are populated."""
     ngram = ngram or rng.choice([2, 2, 3, 3, 4, 5])
-    alphabet = alphabet or rng.choice(['ab', 'abc', 'a', 'abcd', 'xyя'])
+    # besides plain letters: a base letter next to a stand-alone combining mark (NFD text), and two canonically equivalent code points (A-ring / ANGSTROM SIGN):
+    # n-grams are windows of code points, nothing may compose or fold them
+    alphabet = alphabet or rng.choice(['ab', 'abc', 'a', 'abcd', 'xyя', 'ae\u0301', 'a\u00c5\u212b', 'e\u0301\u0308'])
     max_len = max_len or rng.randint(ngram, ngram + 3)
     pool = rng.choice([[0, 1, 2, 3], [0, 1], [0, 0, 1, 5, 10], list(range(11)), [0, 2, 4], [1, 2], [0]])
     ctxs = [''.join(t) for t in itertools.product(alphabet, repeat=ngram - 1)]
